@@ -52,7 +52,11 @@ def run(p: Program, rep: Report, tier: str) -> None:
     rep.require_instances("R18.1", 13)
 
     # ---------------------------------------------------------------- R18.2
-    paths, col, it = run_paths(p, build, url)
+    # the builder together with the module-level repository functions it delegates to (a builder moved to baize.utils, an
+    # authority helper ...) is one unit
+    from ..collect import default_inline as _dinl
+    _unit_policy = lambda fi: _dinl(fi) or (fi.cls is None and fi.parent is None and fi.module.name in ("baize.utils", "baize.datastructures") and not fi.is_generator())  # noqa: E731
+    paths, col, it = run_paths(p, build, url, inline=_unit_policy)
     rep.cfg_paths += len(paths)
     HOST = ("param", "host_header")
     for pa in paths:
@@ -90,22 +94,35 @@ def run(p: Program, rep: Report, tier: str) -> None:
         rep.ok("R18.2", "the query string is appended only when non-empty")
     else:
         rep.violation("R18.2", construct(build, text="query not tested"), where(build), "_build_url never tests the query string: '?' is appended (or the query dropped) regardless of whether there is a query")
-    def _table_expr(n: ast.Subscript):
-        """the dict literal that is indexed: written in place or held by a module-level constant"""
-        if isinstance(n.value, ast.Dict):
+    from ..common import with_helpers as _wh
+    b_unit = _wh(p, build, depth=3, policy=_unit_policy)
+    for f_u in b_unit[1:]:
+        rep.analysed(f_u.fq)
+
+    def _table_expr(n: ast.Subscript, mod_=None):
+        """the dict (literal or comprehension) that is indexed: written in place or held by a module-level constant"""
+        mod_ = mod_ or url.module
+        if isinstance(n.value, (ast.Dict, ast.DictComp)):
             return n.value
-        if isinstance(n.value, ast.Name) and isinstance(url.module.constants.get(n.value.id), ast.Dict):
-            return url.module.constants[n.value.id]
+        if isinstance(n.value, ast.Name) and isinstance(mod_.constants.get(n.value.id), (ast.Dict, ast.DictComp)):
+            return mod_.constants[n.value.id]
         return None
 
-    tables = [n for n in ast.walk(build.node) if isinstance(n, ast.Subscript) and _table_expr(n) is not None]
+    tables, table_mod = [], url.module
+    for f_u in b_unit:
+        for n in ast.walk(f_u.node):
+            if isinstance(n, ast.Subscript) and _table_expr(n, f_u.module) is not None:
+                tables.append(n)
+                table_mod = f_u.module
     if len(tables) == 1:
         try:
-            tbl = F.fold(url.module, _table_expr(tables[0]))
+            tbl = F.fold(table_mod, _table_expr(tables[0], table_mod))
         except NotConst:
             tbl = None
         if tbl == {"http": 80, "https": 443, "ws": 80, "wss": 443}:
             rep.ok("R18.2", "default-port table is {http:80, https:443, ws:80, wss:443}")
+        elif tbl is None:
+            rep.undecide("R18.2", f"the default-port table {ast.unparse(_table_expr(tables[0], table_mod))[:60]} is not a foldable constant")
         else:
             rep.violation("R18.2", construct(build, text=f"default ports {tbl}"), where(build, tables[0]), f"the default-port table is {tbl}")
         if ast.unparse(tables[0].slice) == "scheme":
@@ -114,11 +131,19 @@ def run(p: Program, rep: Report, tier: str) -> None:
             rep.violation("R18.2", construct(build, text=f"default port of {ast.unparse(tables[0].slice)}"), where(build, tables[0]), "the default port is not looked up for the URL's own scheme")
     else:
         rep.undecide("R18.2", "default-port table not found")
-    order = [ast.unparse(n.test) for n in sorted((n for n in walk_shallow(build.node) if isinstance(n, ast.If)), key=lambda n: n.lineno)]
-    if order and order[0] == "host_header is not None":
-        rep.ok("R18.2", "the Host header test comes first (preferred over the server address)")
+    # precedence of the Host header over the server address, as a statement about paths (not about which `if` is written first):
+    # every returning path on which the header is known present builds the URL from it and not from the server pair
+    host_paths = [pa for pa in paths if pa.exit == "return" and (("cmp", "Is", HOST, NONE), False) in pa.facts]
+    host_bad = [pa for pa in host_paths if "server" in show(pa.value) or "host_header" not in show(pa.value)]
+    # ... and a path that does NOT use the header has established that there is none
+    host_bad += [pa for pa in paths if pa.exit == "return" and "host_header" not in show(pa.value) and (("cmp", "Is", HOST, NONE), True) not in pa.facts]
+    if host_paths and not host_bad:
+        rep.ok("R18.2", f"the Host header is preferred over the server address on all {len(host_paths)} paths that have one")
+    elif not host_paths:
+        rep.undecide("R18.2", "no path of the URL builder tests `host_header is None`: precedence of the Host header not recognised")
     else:
-        rep.violation("R18.2", construct(build, text=f"first test {order[:1]}"), where(build), "the Host header is not tested before the server address")
+        rep.violation("R18.2", construct(build, text="server address used although a Host header is present"), where(build), "the Host header is not preferred over the server address: "
+                      + (f"a path returns {show(host_bad[0].value)[:60]} without having established that there is no Host header ({'; '.join(host_bad[0].fact_text())[:100]})"))
     rep.require_instances("R18.2", 6)
 
     # ---------------------------------------------------------------- R18.3
@@ -226,6 +251,13 @@ def run(p: Program, rep: Report, tier: str) -> None:
     rep.cfg_paths += len(paths)
     n_netloc = 0
     shapes = set()
+    # the rule reads the trigger of the netloc branch off the membership facts `'<component>' in kwargs`; a trigger written
+    # another way (any(f in kwargs for f in FIELDS), a table of component names ...) leaves no such fact on any path: not decided
+    trigger_seen = any(f[0] == "cmp" and f[1] == "In" and f[3] == KW and f[2][0] == "const" and f[2][1] in NAMES for pa in paths for f, _t in pa.facts)
+    if not trigger_seen:
+        rep.undecide("R18.4", "replace(): no path tests `'username'|'password'|'hostname'|'port' in kwargs` directly: how the netloc branch is triggered is not recognised")
+        shapes.add("nodeleg")  # suppress the verdicts that depend on the trigger
+        paths = []
     for pa in paths:
         if pa.exit != "return":
             continue
